@@ -8,6 +8,7 @@ import Sidetree.Drv.Hash
 import Sidetree.Drv.Patch
 import Sidetree.Drv.Compose
 import Sidetree.Drv.Apply
+import Sidetree.Drv.Keys
 
 open Sidetree
 
@@ -15,7 +16,8 @@ def handlers : List (String × (Json → Json)) :=
   [("window", Drv.window), ("jcs", Drv.jcs), ("num", Drv.num), ("mh", Drv.mh), ("commit", Drv.commit),
    ("validate", Drv.validate), ("origdoc", Drv.origdoc),
    ("compose", Drv.compose), ("protect", Drv.protect), ("patchrt", Drv.patchrt),
-   ("parse", Drv.parseKind), ("getters", Drv.gettersKind), ("apply", Drv.applyKind)]
+   ("parse", Drv.parseKind), ("getters", Drv.gettersKind), ("apply", Drv.applyKind),
+   ("sign", Drv.signKind), ("jws", Drv.jwsKind), ("jwk", Drv.jwkKind), ("jwkparse", Drv.jwkParseKind)]
 
 def answer (line : String) : String :=
   let cs := line.toList
